@@ -150,6 +150,10 @@ CLASS_POOLS = {
     ("ThetaForecaster", "deseasonalize"): [True, False],
     ("Imputer", "method"): ["drift", "linear", "mean", "median", "nearest"],
     ("BoxCoxTransformer", "method"): ["mle"],
+    ("ForecastingRandomizedSearchCV", "strategy"): ["refit", "update"],
+    ("ForecastingGridSearchCV", "strategy"): ["refit", "update"],
+    ("ForecastingRandomizedSearchCV", "refit"): [True, False],
+    ("ForecastingGridSearchCV", "refit"): [True, False],
 }
 NOT_FITTABLE = {"HCrystalBallForecaster", "PCATransformer", "IntervalSegmenter", "Rocket", "MiniRocket",
                 "MiniRocketMultivariate", "TemporalDictionaryEnsemble", "IndividualTDE", "WEASEL",
@@ -373,13 +377,13 @@ def execute(prop, scen):
                   dropped=part[1] == "drop")
                 break
         if not res.violations:
-            target = [p_ for p_ in kw["estimators"] if p_[1] != "drop"][-1]
+            target = [p_ for p_ in kw["estimators"] if p_[1] != "drop"][0]
             repl = clone(target[1])
             try:
                 est.set_params(**{target[0]: repl})
                 cur = {p_[0]: (p_[1], p_[2]) for p_ in est.estimators}
                 if cur[target[0]][0] is not repl or cur[target[0]][1] != target[2] or \
-                        len(est.estimators) != len(kw["estimators"]):
+                        [p_[0] for p_ in est.estimators] != [p_[0] for p_ in kw["estimators"]]:
                     v("component_not_replaced", "ColumnEnsembleClassifier.set_params(%s=<estimator>) "
                       "did not replace exactly that component (components now: %s)" % (
                           target[0], [(p_[0], p_[2]) for p_ in est.estimators]))
@@ -544,6 +548,7 @@ def execute(prop, scen):
                     new_obj = clone(pobj)
                     callers_list = getattr(est, comp)          # the list object the user passed
                     callers_items = list(callers_list)
+                    names_before = [p_[0] for p_ in callers_items]
                     try:
                         est.set_params(**{pname: new_obj})
                     except Exception as e:  # noqa
@@ -555,6 +560,10 @@ def execute(prop, scen):
                     if cur.get(pname) is not new_obj:
                         v("component_not_replaced", "set_params(%s=<estimator>) did not replace the "
                           "component" % pname)
+                    if [p_[0] for p_ in getattr(est, comp)] != names_before:
+                        v("component_order_changed", "set_params(%s=<estimator>) changed the order of "
+                          "the components: %s -> %s" % (pname, names_before,
+                                                        [p_[0] for p_ in getattr(est, comp)]))
                     if len(callers_list) != len(callers_items) or any(
                             a is not b for a, b in zip(callers_list, callers_items)):
                         v("callers_list_mutated", "set_params(%s=<estimator>) edited the list object "
